@@ -2,19 +2,21 @@
 """Runs every seeded change under /verif/seeded against the quick check of its property (patch applied to
 /repo, then reverted) and records in meta.json whether the check reports a violation, and which obligations."""
 import json, os, subprocess, sys, re, glob
+REPO=os.environ.get('SEED_REPO','/repo')  # a scratch worktree may be used instead (the checks then get VERIF_REPO)
+ENV=dict(os.environ, VERIF_REPO=REPO) if REPO!='/repo' else dict(os.environ)
 only = sys.argv[1:] 
 rows=[]
 for d in sorted(glob.glob('/verif/seeded/*-*')):
     name=os.path.basename(d); prop=name.split('-')[0]
     if only and prop not in only and name not in only: continue
     patch=d+'/patch.diff'
-    if subprocess.call(['git','-C','/repo','apply','--check',patch])!=0:
+    if subprocess.call(['git','-C',REPO,'apply','--check',patch])!=0:
         rows.append((name,'PATCH-DOES-NOT-APPLY',[])); continue
-    subprocess.check_call(['git','-C','/repo','apply',patch])
+    subprocess.check_call(['git','-C',REPO,'apply',patch])
     try:
-        p=subprocess.run(['/verif/bin/govc','check',prop,'--tier','quick'],capture_output=True,text=True)
+        p=subprocess.run(['/verif/bin/govc','check',prop,'--tier','quick'],capture_output=True,text=True,env=ENV)
     finally:
-        subprocess.check_call(['git','-C','/repo','apply','-R',patch])
+        subprocess.check_call(['git','-C',REPO,'apply','-R',patch])
     obs=re.findall(r'^VIOLATION .*?obligation=(\S+)', p.stdout, re.M)
     other=[l for l in p.stdout.splitlines() if l.startswith('VIOLATION') and 'obligation=' not in l]
     detected = p.returncode==1 and (obs or other)
